@@ -1,2 +1,35 @@
-From TV Require Import Base.
-Example C11_placeholder : True. Proof. exact I. Qed.
+(* C11 -- a failing component stops the whole simulation cleanly (fail-stop).
+   The stop protocol over the nesting tree.  That run() then returns relies on asyncio's
+   Task.cancel (modelled as "cancelled tasks end") and is observed by the correspondence run for
+   every (device, n-th update) failure point; the exception message is forwarded unchanged by
+   every level (handle_component_exception stores it, SystemComponent.on_tick re-publishes the
+   stored object), which the run checks by identity.  Property theorems only. *)
+From TV Require Import Base Model.Wiring Model.Sim Model.FailStop Proofs.FailStopP.
+
+(* a scheduler's StopComponent broadcast reaches exactly the components below its level, at
+   every depth (a system component that is told to stop tells its inner components) *)
+Theorem C11_broadcast_reaches_subtree : forall cfg fuel lv c,
+  In c (stop_level cfg fuel lv) <-> Below cfg fuel lv c.
+Proof. exact stop_level_spec. Qed.
+
+(* wherever the failing device lives -- top level or inside nested system simulations -- every
+   component of the simulation is told to stop (the master is always among the schedulers that
+   handle the exception) *)
+Theorem C11_all_stopped : forall cfg fuel lvc path c,
+  In 1%positive (handling_levels lvc path) ->
+  In c (all_components cfg fuel) -> In c (stopped cfg fuel lvc path).
+Proof. exact all_stopped. Qed.
+
+(* the pinned tree violated this: components inside a system simulation were not told to stop
+   when the failure was outside it *)
+Theorem C11_pinned_refuted : exists cfg c,
+  In c (all_components cfg 5) /\ ~ In c (flat_map (stop_level_pinned cfg) (handling_levels 1%positive [])).
+Proof. exact pinned_refuted. Qed.
+
+Example C11_example :
+  let cfg := [(1%positive, {| l_order := [(3%positive, KDev); (4%positive, KSys 2%positive)]; l_conns := [] |});
+              (2%positive, {| l_order := [(5%positive, KDev); (6%positive, KSys 3%positive)]; l_conns := [] |});
+              (3%positive, {| l_order := [(7%positive, KDev)]; l_conns := [] |})] in
+  stopped cfg 5 3%positive [(1%positive, 4%positive); (2%positive, 6%positive)]
+  = [7; 3; 4; 5; 6; 7; 5; 6; 7]%positive.
+Proof. vm_compute. reflexivity. Qed.
